@@ -325,6 +325,13 @@ const PRELUDES: &[Prelude] = &[
     Prelude { name: "send_pages, bus error at pixels-complete", op: Op::SendPages, n_pages: 1, overrides: &[("pixels_complete", 0, SYM_BUS_ERROR)] },
     Prelude { name: "send_pages, bus error at the result query", op: Op::SendPages, n_pages: 1, overrides: &[("pixels_result_query", 0, SYM_BUS_ERROR)] },
     Prelude { name: "send_pages, transfer request refused", op: Op::SendPages, n_pages: 1, overrides: &[("pixels_request_ack", 0, SYM_NONE)] },
+    // one or two failed attempts, then the call is cut short inside the next one (whatever it counted stays behind)
+    Prelude { name: "send_pages: failed twice, bus error at the third request", op: Op::SendPages, n_pages: 1, overrides: &[("pixels_result_query", 0, S_PIX_FAIL as u16), ("pixels_result_query", 1, S_PIX_FAIL as u16), ("pixels_request_ack", 2, SYM_BUS_ERROR)] },
+    Prelude { name: "send_pages: failed twice, third result query unanswered", op: Op::SendPages, n_pages: 1, overrides: &[("pixels_result_query", 0, S_PIX_FAIL as u16), ("pixels_result_query", 1, S_PIX_FAIL as u16), ("pixels_result_query", 2, SYM_NONE)] },
+    Prelude { name: "send_pages: failed twice, bus error at the 8th chunk sent (third attempt of a 3-chunk page)", op: Op::SendPages, n_pages: 1, overrides: &[("pixels_result_query", 0, S_PIX_FAIL as u16), ("pixels_result_query", 1, S_PIX_FAIL as u16), ("pixels_chunk", 7, SYM_BUS_ERROR)] },
+    Prelude { name: "send_pages: failed once, second request refused", op: Op::SendPages, n_pages: 1, overrides: &[("pixels_result_query", 0, S_PIX_FAIL as u16), ("pixels_request_ack", 1, SYM_NONE)] },
+    Prelude { name: "configure: failed twice, bus error at the third count", op: Op::Configure, n_pages: 0, overrides: &[("config_result_query", 0, S_CFG_FAIL as u16), ("config_result_query", 1, S_CFG_FAIL as u16), ("config_count", 2, SYM_BUS_ERROR)] },
+    Prelude { name: "configure: failed twice, third result query answered by another sign", op: Op::Configure, n_pages: 0, overrides: &[("config_result_query", 0, S_CFG_FAIL as u16), ("config_result_query", 1, S_CFG_FAIL as u16), ("config_result_query", 2, FOREIGN + S_CFG_RECV as u16)] },
     Prelude { name: "configure ok", op: Op::Configure, n_pages: 0, overrides: &[] },
     Prelude { name: "configure ok after a reset", op: Op::Configure, n_pages: 0, overrides: &[("reset_hello_1", 0, S_SHOWN as u16)] },
     Prelude { name: "configure gave up after three failed transfers", op: Op::Configure, n_pages: 0, overrides: &[("config_result_query", 0, S_CFG_FAIL as u16), ("config_result_query", 1, S_CFG_FAIL as u16), ("config_result_query", 2, S_CFG_FAIL as u16)] },
